@@ -402,6 +402,12 @@ func abstractRun(a *absCtx, r *ScenarioRun, drvDir string) ([]map[string]any, er
 	roles := map[string]InitFile{}
 	for _, f := range s.Init {
 		roles[f.P] = f
+		if s.DefaultLoc { // projected directory is <driver>/__snapshots__
+			roles[strings.TrimPrefix(f.P, "__snapshots__/")] = f
+		}
+	}
+	if r.Drv != "" {
+		drvDir = r.Drv
 	}
 	cfgs := resolveCfgs(s.Configs, r.Dir)
 	var out []map[string]any
